@@ -151,8 +151,8 @@ class Restraint(Residue):
         self._spline = spline
         if '_' in spline[0]:
             self.name, suffix = spline[0].upper().split('_')
-            # a residue class has to start with a letter, but can contain numbers:
-            if len(suffix) > 0 and re.match(r'[a-zA-Z]', suffix):
+            # a residue class may begin with a digit, but contains at least one letter (as in RESI):
+            if len(suffix) > 0 and re.search(r'[a-zA-Z]', suffix):
                 self.residue_class: str = suffix
         else:
             self.name = spline[0].upper()
